@@ -12,7 +12,7 @@ DEMO_PATH=$(python3 -c "import json,sys; print(json.load(open('$D/meta.json'))['
 DEMO_CMD=$(python3 -c "import json,sys; print(json.load(open('$D/meta.json'))['demo_cmd'])")
 DEMO_FILE=$(basename "$DEMO_PATH")
 [ -f "$D/$DEMO_FILE" ] || { echo "SEED: demo file $DEMO_FILE missing in $D"; ls "$D"; exit 3; }
-DEMO_CMD=$(echo "$DEMO_CMD" | sed -E "s#/tmp/wt2?/C[0-9]+#$W#g; s#<worktree>#$W#g; s#<repo>#$W#g")
+DEMO_CMD=$(echo "$DEMO_CMD" | sed -E "s#/tmp/wt[0-9]*/C[0-9]+#$W#g; s#<worktree>#$W#g; s#<repo>#$W#g")
 cd "$W"
 git apply --check "$D/patch.diff" || { echo "SEED: patch does not apply to current /repo HEAD"; exit 4; }
 mkdir -p "$(dirname "$DEMO_PATH")"; cp "$D/$DEMO_FILE" "$DEMO_PATH"
